@@ -126,6 +126,12 @@ def run(ctx):
         for na in (NOT_AFTER[1], NOT_AFTER[8]):
             for rd in (RENEW_DELAY[0], RENEW_DELAY[3], RENEW_DELAY[5]):
                 reqs.append(make_req(na, rd, EARLY[2], files=files, draws=4))
+    if not ctx.quick:
+        # a day-by-day sweep around the renewal instant and the expiry, and year steps up to the far future
+        for days in list(range(-3, 100)) + [365 * y for y in (2, 5, 10, 30, 60, 67, 68, 69, 70, 100, 500, 2000, 7000)]:
+            for rd in (RENEW_DELAY[0], RENEW_DELAY[3], RENEW_DELAY[4]):
+                for rer in (EARLY[0], EARLY[3]):
+                    reqs.append(make_req(("%+dd" % days, days * DAY + 30), rd, rer, draws=8))
     obs = e1.run_all(ctx.pool, reqs, 120.0)
     for r, o in zip(reqs, obs):
         if o.get("panic") and not o.get("phases"):
